@@ -4,6 +4,7 @@ package credfam
 
 import (
 	"bytes"
+	"crypto/sha256"
 	"encoding/base64"
 	"encoding/json"
 	"fmt"
@@ -41,6 +42,10 @@ func compact(raw json.RawMessage) string {
 		return "<unparsable>" + string(raw)
 	}
 	b, _ := json.Marshal(v) // maps are marshalled with sorted keys
+	if len(b) > 256 {
+		// a long value is represented by its digest
+		return fmt.Sprintf("sha256:%x/%d", sha256.Sum256(b), len(b))
+	}
 	return string(b)
 }
 
